@@ -125,6 +125,9 @@ def case_dump_one(case):
         feats["klass"] = "needs-conversion"
     else:
         data, feats = go.make(fmt, rng, klass)
+    if case["i"] % 4 == 1:
+        go.relayout(data, gb.rng_for(9, 77, case["seed"], case["i"]))  # equal arrays in Fortran order / strided views
+        feats["layout"] = "non-contiguous"
     viols, featlist = [], []
     counters = {"dump_calls": 0, "snapshots_compared": 0, "conversions": 0, "byte_comparisons": 0, "refusals": 0}
     root = tempfile.mkdtemp(prefix="vf_c09_")
